@@ -29,6 +29,8 @@ def run(prog: Program, rep, tier: str) -> None:
     rep.assumptions += ["time.time() is monotone", "numpy/scipy kernels are deterministic (C10)"]
     limits_gate_control(prog, rep)
     c02.accounting(prog, rep)
+    c02.integration_accounting(prog, rep)
+    c02.callees(prog, _TimerOnly(rep))
     only_accepted_carried(prog, rep)
     # mid-step deadline => failed step
     x = ExcFlow(prog)
@@ -40,6 +42,33 @@ def run(prog: Program, rep, tier: str) -> None:
     # identical trial steps also need fresh controller / penalty state in every solve (C10.3)
     from . import c10
     c10.per_solve(prog, rep)
+
+
+class _TimerOnly:
+    """forward only the timer rules of C02 (a deadline must be a deadline for the prefix property to make sense)."""
+
+    def __init__(self, rep):
+        self.rep = rep
+        self.extra = rep.extra
+
+    def ok(self, rule, *a, **k):
+        if rule == "timer":
+            self.rep.ok(rule, *a, **k)
+
+    def fail(self, rule, *a, **k):
+        if rule == "timer":
+            self.rep.fail(rule, *a, **k)
+
+    def check(self, cond, rule, *a, **k):
+        if rule == "timer":
+            return self.rep.check(cond, rule, *a, **k)
+        return cond
+
+    def note(self, t):
+        pass
+
+    def pin(self, *a):
+        pass
 
 
 def limits_gate_control(prog: Program, rep) -> None:
@@ -137,11 +166,14 @@ def limits_gate_control(prog: Program, rep) -> None:
 def only_accepted_carried(prog: Program, rep) -> None:
     L = solve_loop(prog)
     sv, ff = L.fi, L.ff
+    name = L.names()["iterate"]
+    if name is None:
+        raise AnalysisError("Solver.solve: cannot identify the carried iterate (the iterate argument of _compute_step)")
     c18.veto(prog, rep, "only-accepted-carried")
-    stores = L.stores_in_loop("iterate")
-    rep.check(len(stores) == 1, "only-accepted-carried", sv.qualname, "iterate = ...", f"`iterate` has exactly one definition inside the loop (found {len(stores)})", sv.loc(L.loop))
-    d0 = L.last_def_before_loop("iterate")
-    rep.check(d0 is not None and "create_transformed_iterate" in U(d0.stmt.value), "only-accepted-carried", sv.qualname, short(d0.stmt) if d0 else "",
+    stores = L.stores_in_loop(name)
+    rep.check(len(stores) == 1, "only-accepted-carried", sv.qualname, f"{name} = ...", f"the carried iterate has exactly one definition inside the loop (found {len(stores)})", sv.loc(L.loop))
+    d0 = L.last_def_before_loop(name)
+    rep.check(d0 is not None and "create_transformed_iterate" in U(ff.resolved(d0.stmt, d0.stmt.value)), "only-accepted-carried", sv.qualname, short(d0.stmt) if d0 else "",
               "the first iterate is the transformed starting point", sv.loc(d0.stmt) if d0 else sv.loc())
     # nothing after the loop derives from the trial step
     after = [s for s in ff.order if s.index > L.loop_si.index and not L.in_loop(s)]
